@@ -971,8 +971,8 @@ func v1PerValue() bool {
 	return v1PerValueOnce.val
 }
 
-// v1Fieldwise: a legacy document in which the own entry of one of the validators is null, or lacks
-// a gas limit or a builder that default_config has: the inputs on which the per-value reading of
+// v1Fieldwise: a legacy document in which the own entry of one of the validators lacks a gas limit
+// or a builder that default_config has: the inputs on which the per-value reading of
 // docs/execlayer.md and the code's whole-entry selection can differ (known finding
 // C10-v1-entry-not-fieldwise; computed from the input only).
 func v1Fieldwise(in Input) bool {
@@ -1007,8 +1007,8 @@ func v1Fieldwise(in Input) bool {
 				continue
 			}
 			entry, isObj := e.(map[string]any)
-			if e == nil || !isObj {
-				return true
+			if !isObj {
+				continue // null: no entry (the default applies under both readings); anything else is refused
 			}
 			if !hasGas(entry) && hasGas(def) {
 				return true
